@@ -151,6 +151,23 @@ def managed_protocol(repo):
                         break
     if not flag:
         raise TranslateError('ManagedThread::isActive(): no member read found')
+    # isActive() must be nothing but a read of that flag: any other member, a store or a branch makes the answer
+    # depend on more than the protocol models
+    for d in docs:
+        for n in _walk(d):
+            if n.get('kind') == 'CXXMethodDecl' and n.get('name') == 'isActive' and \
+                    any(c.get('kind') == 'CompoundStmt' for c in n.get('inner', [])):
+                members = {x.get('name') for x in _walk(n) if x.get('kind') == 'MemberExpr'
+                           and x.get('name') not in (None, 'load') and 'bound member' not in _qual(x)}
+                kinds = {x.get('kind') for x in _walk(n)}
+                stores = {x.get('name') for x in _walk(n) if x.get('kind') == 'MemberExpr'
+                          and x.get('name') in ('store', 'exchange', 'compare_exchange_strong', 'compare_exchange_weak',
+                                                'fetch_or', 'fetch_and', 'fetch_add')}
+                if len(members) != 1 or stores or kinds & {'IfStmt', 'WhileStmt', 'ForStmt', 'ConditionalOperator',
+                                                           'CompoundAssignOperator', 'SwitchStmt'} or \
+                        any(x.get('kind') == 'BinaryOperator' and x.get('opcode') == '=' for x in _walk(n)):
+                    raise TranslateError('ManagedThread::isActive() is more than a read of the activity flag '
+                                         '(members %s)' % sorted(members))
     mode = 'Atomic' if 'atomic' in flag_type else 'Plain'
     # the instantiated constructor
     ctor = None
